@@ -10,6 +10,7 @@ package props
 
 import (
 	"encoding/json"
+	"errors"
 	"math/big"
 	"strings"
 	"testing"
@@ -172,12 +173,24 @@ func checkSchemaCase(c *schemaCase, draft refmodel.Draft, rec *ev.Recorder) *fai
 			return failf("Resolve rejects a well-formed schema document: %v\n%s", err, doc)
 		}
 		for _, inst := range c.Instances {
-			visited := map[*refmodel.Node]bool{}
-			m.Trace = func(n *refmodel.Node) { visited[n] = true }
 			want, err := m.Validate(inst)
-			m.Trace = nil
+			if errors.Is(err, refmodel.ErrBudget) || (err == nil && m.NaiveCost > 2e6) {
+				// in-place applicators fanning out over shared definitions: the schema is finite and
+				// acyclic, but an evaluator without a memo (the library) walks exponentially many
+				// paths. Left out (counted): the property is about verdicts, not about time.
+				if rec != nil {
+					rec.Class("discard:exponentially-many-in-place-paths")
+				}
+				continue
+			}
 			if err != nil {
 				return failf("HARNESS: model error: %v\n%s", err, doc)
+			}
+			visited := map[*refmodel.Node]bool{}
+			if rec != nil {
+				m.Trace = func(n *refmodel.Node) { visited[n] = true }
+				_, _ = m.Validate(inst)
+				m.Trace = nil
 			}
 			got := rs.Validate(inst.ToAny())
 			if rec != nil {
